@@ -149,3 +149,108 @@ Lemma T3_unsusp ms t : susp t = false -> T3 ms t <-> (CIb ms t /\ NQ ms t).
 Proof.
   unfold susp, T3. destruct (m_walks t) as [|w ws]; [tauto|]. destruct (w_own w) as [[r c]|]; [discriminate|tauto].
 Qed.
+
+(* ---- steps ---- *)
+Definition step3 (ms : mshared) (t : mthread) (ms' : mshared) (t' : mthread) : Prop :=
+  ms_bad ms' = true \/
+  (ms_chk ms' = ms_chk ms /\ ms_bad ms' = ms_bad ms /\ T3 ms' t' /\ grows_to ms ms' /\ MS ms' /\
+   m_isadd t' = m_isadd t /\ m_k t' = m_k t /\
+   lens_ok ms t = true /\ focus_ok ms t = true /\ done_ok t' = true).
+
+Lemma upd_upd {A} (l : list A) c a b : upd (upd l c a) c b = upd l c b.
+Proof. revert c; induction l as [|x l IH]; intros [|c]; cbn; auto. rewrite IH. reflexivity. Qed.
+
+Lemma CIb_focus ms t : CIb ms t -> m_pc t = MRun -> rc3 ms t (m_role t) (m_c t).
+Proof.
+  intros (L & X) Hpc. unfold rc3. destruct (m_isadd t) eqn:Ea.
+  - destruct X as (A1 & A2 & A3 & A4 & A5 & A6 & A7 & A8). rewrite Hpc in A8. destruct A8 as (B1 & B2 & B3).
+    rewrite B1. split; [exact A1|]. split; [exact B2|]. destruct (m_role t); try contradiction; [rewrite L; exact A1 | auto].
+  - destruct X as (A1 & A2 & A3 & A8). rewrite Hpc in A8. destruct A8 as (ph & pre & rest & B1 & B2 & [B3 B4] & B5).
+    destruct (B4 (m_c t)) as [C1 C2]; [apply in_or_app; right; left; reflexivity|].
+    rewrite B2. split; [exact C1|]. split; [exact C2|]. rewrite L. exact C1.
+Qed.
+
+Lemma gett_sett t r c u : rc_len t r c -> gett (sett t r c u) r c = u.
+Proof. destruct r; cbn; intros H; try reflexivity; apply nth_upd_same; exact H. Qed.
+
+Lemma rc3_len ms t r c : rc3 ms t r c -> rc_len t r c.
+Proof. intros (_ & _ & H). destruct r; cbn; auto; contradiction. Qed.
+
+Lemma thr_nest0 ms j g0 : ms_cur ms = Some g0 -> ms_tight ms = true ->
+  thr_step ms j nest0 = mkT IvLoad Changer 0 0 0 (Some g0) (Some 0%nat) SameFile Done.
+Proof. intros C T. unfold thr_step, step_thread, nest0. cbn. rewrite C, T. reflexivity. Qed.
+
+Lemma NQ_quiet ms t : NQ ms t -> forallb quietb (m_nest t) = true.
+Proof.
+  intros [L Q]. destruct (m_grown t); [exact Q|]. apply (forallb_of_nth quietb dflt). intros j Hj. rewrite L in Hj.
+  rewrite (Q j Hj). reflexivity.
+Qed.
+
+Lemma core3_unsusp ms t ms' t' : MW ms -> CIb ms t -> NQ ms t -> mstep_core ms t = (ms', t') -> step3 ms t ms' t'.
+Proof.
+  intros W I0 Q H. pose proof Q as [QL QN].
+  destruct (CIb_lens_focus _ _ I0 QL) as [LO FO].
+  destruct (step_thread np0 (proj (m_c t) ms) (gett t (m_role t) (m_c t))) as [s' u'] eqn:Es.
+  destruct (negb (nogrowb (gett t (m_role t) (m_c t)) u') && match m_pc t with MRun => true | _ => false end) eqn:Eg.
+  - (* the inline extension *)
+    apply andb_true_iff in Eg as [Eg Hpc]. apply negb_true_iff in Eg. destruct (m_pc t) eqn:Hpc'; try discriminate Hpc. clear Hpc.
+    unfold nogrowb in Eg. apply negb_false_iff in Eg. pose proof Eg as Eg'. apply andb_true_iff in Eg' as [G1 G2]. apply pc_is_eq in G1, G2.
+    destruct (step_grow _ _ _ _ _ Es G1 G2) as (g0 & Ecur & Efull & P2 & P2' & Kk & Kp & Kt & FP & LC).
+    unfold mstep_core in H. rewrite Hpc' in H. cbv zeta in H. rewrite Es, Eg in H.
+    destruct (m_grown t) eqn:Egr; cbn [andb] in H.
+    { injection H as <- <-. left. cbn. apply orb_true_r. }
+    pose proof (CIb_focus _ _ I0 Hpc') as RC. remember (m_role t) as r eqn:Er0. remember (m_c t) as c eqn:Ec0.
+    pose proof RC as (Hc & Hcl & Hr). pose proof (rc3_len _ _ _ _ RC) as RL.
+    pose proof (MW_MS _ W) as (M1 & M4 & M5).
+    assert (OK : ms_tight ms && alli (fun j v => Nat.eqb j c || pc_is (t_pc v) CStore && tgt_same (t_tgt v)) (m_nest t) = true).
+    { rewrite (M5 Efull). cbn [andb]. apply (alli_of_nth _ dflt). intros j Hj. rewrite QL in Hj. rewrite (QN j Hj). apply orb_true_r. }
+    fold (nest_others ms c t) in H. rewrite OK in H. cbn [negb] in H. rewrite set_chk_false in H. injection H as <- <-.
+    assert (G : grows_to ms (inj c ms s')) by (split; [unfold nc, inj; cbn; apply upd_len | auto]).
+    assert (S' : MS (inj c ms s')).
+    { unfold MS, nc, inj. cbn [ms_claimed ms_ctrs ms_nf ms_full ms_tight]. rewrite upd_len. split; [exact M1|]. split.
+      - apply Forall_upd; [exact M4|]. cbn [c_cells]. rewrite LC. cbn [proj s_cells]. rewrite Forall_forall in M4. apply M4. apply nth_In. exact Hc.
+      - unfold file_part in FP. injection FP as _ _ _ F4 _. rewrite F4. discriminate. }
+    right. split; [reflexivity|]. split; [reflexivity|]. split; [|split; [exact G|split; [exact S'|split; [|split; [|split; [exact LO|split; [exact FO|reflexivity]]]]]]].
+    2:{ destruct r; reflexivity. } 2:{ destruct r; reflexivity. }
+    destruct (nest_others_same ms c t r) as (N1 & N2 & N3).
+    unfold T3. cbn [m_walks with_walks w_own]. split.
+    + (* the base view *)
+      apply (CIb_cong (inj c ms s') (sett t r c (with_pc u' LCas))).
+      * unfold bview, same_ctl, nest_others. destruct r; try contradiction; cbn; cbn in Hr;
+          rewrite ?(nth_upd_same _ _ _ _ Hr), ?upd_upd; repeat split; auto.
+      * apply (CIb_mono ms); [exact G|]. rewrite Er0, Ec0. apply CIb_swap; [exact I0|exact Hpc'|].
+        rewrite <- Er0, <- Ec0. unfold sameC. cbn. repeat split; auto.
+    + (* the nested walk, before its head load *)
+      match goal with |- NW _ ?T _ _ _ => set (T' := T) end.
+      assert (GS : gett T' r c = u') by (unfold T'; destruct r; cbn; try contradiction; [apply nth_upd_same; exact Hr | reflexivity]).
+      assert (NS : m_nest T' = mapi (fun j v => if Nat.eqb j c then v else thr_step ms j v) (m_nest t)) by (unfold T', nest_others; destruct r; cbn; try contradiction; reflexivity).
+      assert (GR : m_grown T' = true) by (unfold T'; destruct r; reflexivity).
+      assert (PC : m_pc T' = MHead) by (unfold T'; destruct r; reflexivity).
+      assert (ML : length (m_main T') = length (m_main t)) by (unfold T', nest_others; destruct r; cbn; rewrite ?upd_len; reflexivity).
+      assert (IA : m_isadd T' = m_isadd t /\ m_k T' = m_k t) by (unfold T', nest_others; destruct r; cbn; auto).
+      assert (NJ : forall j, (j < nc ms)%nat -> j <> c ->
+                 nth j (m_nest T') dflt = mkT IvLoad Changer 0 0 0 (Some g0) (Some 0%nat) SameFile Done).
+      { intros j Hj Nj. rewrite NS. rewrite nth_mapi by (intros i; destruct (Nat.eqb i c); reflexivity).
+        apply Nat.eqb_neq in Nj. rewrite Nj. rewrite (QN j Hj). apply thr_nest0; [exact Ecur | exact (M5 Efull)]. }
+      pose proof G as [N _]. unfold NW. rewrite GR, PC, GS, N. split; [reflexivity|]. split; [rewrite NS, mapi_len; exact QL|].
+      split. { unfold rc3. destruct IA as [-> ->]. rewrite ML, N. exact RC. }
+      split; [reflexivity|]. exists g0. split; [exact P2'|]. split; [rewrite G2; reflexivity|].
+      split. { intros j Hj Nj. rewrite (NJ j Hj Nj). cbn. repeat split; discriminate. }
+      split. { rewrite NS. rewrite nth_mapi by (intros i; destruct (Nat.eqb i c); reflexivity). rewrite Nat.eqb_refl, (QN c Hc). reflexivity. }
+      split; [reflexivity|]. split; [reflexivity|]. split; [reflexivity|].
+      intros j Hj. unfold VF. rewrite GS. destruct (Nat.eqb j c) eqn:Ej.
+      * cbn. rewrite G2. reflexivity.
+      * apply Nat.eqb_neq in Ej. rewrite (NJ j Hj Ej). reflexivity.
+  - (* any other step *)
+    assert (NG : m_pc t = MRun -> NGH ms t).
+    { intros Hpc s'' u'' E. rewrite Es in E. injection E as <- <-. rewrite Hpc, andb_true_r in Eg. apply negb_false_iff in Eg. exact Eg. }
+    assert (SO : step_ok ms t ms' t').
+    { destruct (m_isadd t) eqn:Ea; [eapply core_CI_add | eapply core_CI_chg]; eauto. }
+    destruct SO as (C1 & B1 & EN & EG & ET & I1 & G & S1 & E1 & E2). pose proof G as [N _].
+    assert (Q' : NQ ms' t').
+    { unfold NQ. rewrite EN, EG, N. exact Q. }
+    right. split; [exact C1|]. split; [exact B1|]. split.
+    { apply (T3_unsusp ms' t' (CIb_not_susp _ _ I1)). split; assumption. }
+    split; [exact G|]. split; [exact S1|]. split; [exact E1|]. split; [exact E2|]. split; [exact LO|]. split; [exact FO|].
+    apply (CIb_done_ok _ _ I1). rewrite EN. apply (NQ_quiet _ _ Q).
+Qed.
